@@ -97,8 +97,10 @@ func rulesC10(c *Ctx) {
 	}
 	sentinelsC10(c)
 	zoneRulesC10(c)
+	nilLocRule(c, "C10.nilloc")
 	exactTimeRule(c, "C10.exacttime", "ConditionExpr", "conditionExpr", "reduce")
 	residualC10(c, ce)
+	parenRangeC10(c, ce)
 	// the residual is built through reduce: its boolean short-cuts decide
 	// whether `x OR false`, `true AND x` keep x
 	shortcutsC09(c, tt, "C10.reduce")
@@ -917,4 +919,129 @@ func zoneRulesC10(c *Ctx) {
 		}
 		c.Floor("C10.zonefirst", n, 1)
 	}
+}
+
+// nilLocRule: a location handed to the time package is never a nil pointer
+// that came in from a caller.
+func nilLocRule(c *Ctx, rule string) {
+	p := c.P
+	c.Rule(rule, "where a *time.Location parameter of an exported function or method reaches time.ParseInLocation, Time.In or time.Date, it has been replaced by a default or tested non-nil on every path: the time package panics on a nil location, and callers (ConditionExpr under a valuer without a zone) do pass nil")
+	n := 0
+	for _, f := range p.allSSAFuncs() {
+		if f.Parent() != nil {
+			continue
+		}
+		o, _ := f.Object().(*types.Func)
+		if o == nil || !o.Exported() {
+			continue
+		}
+		for _, b := range f.Blocks {
+			for _, in := range b.Instrs {
+				call, ok := in.(*ssa.Call)
+				if !ok || call.Call.StaticCallee() == nil {
+					continue
+				}
+				name := call.Call.StaticCallee().String()
+				argi := -1
+				switch name {
+				case "time.ParseInLocation":
+					argi = 2
+				case "(time.Time).In":
+					argi = 1
+				case "time.Date":
+					argi = 7
+				}
+				if argi < 0 || argi >= len(call.Call.Args) {
+					continue
+				}
+				prm, ok := call.Call.Args[argi].(*ssa.Parameter)
+				if !ok {
+					continue // a phi with a default, a field, a package value: not a raw parameter
+				}
+				n++
+				key := fmt.Sprintf("%s: %s with parameter %s", ssaFuncName(f), call.Call.StaticCallee().Name(), prm.Name())
+				guarded := false
+				for d := b; d != nil && !guarded; d = d.Idom() {
+					for _, pr := range d.Preds {
+						ifi, ok := pr.Instrs[len(pr.Instrs)-1].(*ssa.If)
+						if !ok || len(d.Preds) != 1 {
+							continue
+						}
+						bo, ok := ifi.Cond.(*ssa.BinOp)
+						if !ok || bo.X != ssa.Value(prm) || !isNilConst(bo.Y) {
+							continue
+						}
+						if (bo.Op == token.NEQ && pr.Succs[0] == d) || (bo.Op == token.EQL && pr.Succs[1] == d) {
+							guarded = true
+						}
+					}
+				}
+				if guarded {
+					c.OK(rule, key, call.Pos(), "tested non-nil on the way")
+				} else {
+					c.Bad(rule, key, call.Pos(), "the caller's location is used as it came in: a nil location makes the time package panic")
+				}
+			}
+		}
+	}
+	c.OK(rule, "location arguments examined", 0, fmt.Sprintf("%d raw parameters handed to the time package", n))
+}
+
+// parenRangeC10: a parenthesised group hands on the range found inside it.
+func parenRangeC10(c *Ctx, ce *ssa.Function) {
+	p := c.P
+	c.Rule("C10.parenrange", "in the ParenExpr arm of conditionExpr every successful return carries the time range that the recursive call on the inner expression produced: a short-cut that folds the group and returns an empty range (because some helper saw no time comparison in it) leaves the group's time bounds in the residual and out of the range")
+	n := 0
+	for _, b := range ce.Blocks {
+		for _, in := range b.Instrs {
+			ta, ok := in.(*ssa.TypeAssert)
+			if !ok || p.TypeStr(ta.AssertedType) != "*ParenExpr" || ta.X != ssa.Value(ce.Params[0]) {
+				continue
+			}
+			// the arm: blocks dominated by the success edge of this assertion
+			var arm *ssa.BasicBlock
+			if ifi, ok := b.Instrs[len(b.Instrs)-1].(*ssa.If); ok {
+				if ex, ok := ifi.Cond.(*ssa.Extract); ok && ex.Tuple == ssa.Value(ta) {
+					arm = b.Succs[0]
+				}
+			}
+			if arm == nil {
+				continue
+			}
+			for _, d := range ce.Blocks {
+				if d != arm && !arm.Dominates(d) {
+					continue
+				}
+				ret, ok := d.Instrs[len(d.Instrs)-1].(*ssa.Return)
+				if !ok || len(ret.Results) != 3 {
+					continue
+				}
+				if k, isC := ret.Results[2].(*ssa.Const); !isC || !k.IsNil() {
+					continue
+				}
+				n++
+				key := fmt.Sprintf("conditionExpr: ParenExpr arm, successful return #%d", n)
+				fromRec := false
+				if ex, ok := ret.Results[1].(*ssa.Extract); ok && ex.Index == 1 {
+					if call, ok := ex.Tuple.(*ssa.Call); ok && call.Call.StaticCallee() == ce {
+						fromRec = true
+					}
+				}
+				if fromRec {
+					c.OK("C10.parenrange", key, ret.Pos(), "the range of the inner expression")
+				} else if k, isC := ret.Results[1].(*ssa.Const); isC && k.Value == nil {
+					c.Bad("C10.parenrange", key, ret.Pos(), "an empty range is returned for a group whose inner expression was not split: time bounds written with time on the right (`'x' < time`) stay in the residual")
+				} else if ld, ok := ret.Results[1].(*ssa.UnOp); ok {
+					if _, isAlloc := ld.X.(*ssa.Alloc); isAlloc {
+						c.Bad("C10.parenrange", key, ret.Pos(), "an empty range is returned for a group whose inner expression was not split: time bounds written with time on the right (`'x' < time`) stay in the residual")
+					} else {
+						c.Unk("C10.parenrange", key, ret.Pos(), "the returned range is not the recursive call's")
+					}
+				} else {
+					c.Unk("C10.parenrange", key, ret.Pos(), "the returned range is not the recursive call's")
+				}
+			}
+		}
+	}
+	c.Floor("C10.parenrange", n, 1)
 }
